@@ -320,6 +320,19 @@ let suite_abeq n ops1 ops2 =
 let suite_frame hex = hex_of_bytes (frame (bytes_of_hex hex))
 let suite_crc hex = dec_of_n (crc16 (bytes_of_hex hex))
 
+let ops_of_string (ops : string) : op list =
+  List.concat_map
+    (fun tok ->
+      if tok = "" then []
+      else
+        match tok.[0] with
+        | 'x' -> List.map (fun b -> Push b) (bytes_of_hex (String.sub tok 1 (String.length tok - 1)))
+        | 'F' -> [ Finalize ]
+        | 'R' -> [ Reset ]
+        | 'N' -> [ FromBuf ]
+        | _ -> failwith "bad op")
+    (String.split_on_char ',' ops)
+
 let handle (line : string) : string =
   match String.split_on_char ' ' line with
   | [ "dec"; cap; ops ] -> suite_dec (cap_of_string cap) ops
@@ -334,6 +347,13 @@ let handle (line : string) : string =
   | [ "abuf"; n; ops ] -> suite_abuf (int_of_string n) ops
   | [ "abfrom"; n; hex ] -> suite_abfrom (int_of_string n) hex
   | [ "abeq"; n; o1; o2 ] -> suite_abeq (int_of_string n) o1 o2
+  | [ "hdec"; cap; ops ] -> dec_of_n (x_dec (cap_of_string cap) (ops_of_string ops))
+  | [ "henc"; hex ] -> dec_of_n (x_enc (bytes_of_hex hex))
+  | [ "hparse"; hex ] -> dec_of_n (x_parse (bytes_of_hex hex))
+  | [ "hrd"; kind; cap; evs; calls ] ->
+    let k = match kind with "slice" | "iter" -> KSlice | "io" -> KIo | "eh" -> KEh | _ -> failwith "kind" in
+    dec_of_n (x_rd k (cap_of_string cap) (sevs_of_string evs) (calls_of_string calls))
+  | [ "habuf"; n; ops ] -> dec_of_n (x_abuf (nat_of_int (int_of_string n)) (aops_of_string ops))
   | [ "frame"; hex ] -> suite_frame hex
   | [ "crc"; hex ] -> suite_crc hex
   | _ -> failwith ("unknown suite: " ^ line)
